@@ -47,7 +47,17 @@ def tower_op(prog, level, mname, al, intercepts, in_levels, spec, alias=None, ou
         for j in alias[1:]:
             use_vals[j] = vals[alias[0]]
     expected = spec(T, *use_vals)
-    res = H.run(fname, make_args)
+    try:
+        res = H.run(fname, make_args)
+    except eir.MemViolation as e:
+        # A-MEM assertion (e.g. a __restrict argument overlapping the written object) on the way: report it as a violation of
+        # this obligation; native replay on random operands decides whether it is observable
+        v = Violation("%s::%s:%s" % (CLASS[level], mname, "alias=" + ",".join(map(str, alias)) if alias else "distinct"),
+                      "%s::%s%s: %s" % (CLASS[level], mname, " with output aliasing input(s) %r" % (alias,) if alias else "", e),
+                      {"function": fname, "level": level, "method": mname, "in_levels": list(in_levels),
+                       "alias": list(alias) if alias else None, "assignment": {}, "mem_violation": e.kind})
+        v.info = dict(H.stats())
+        raise v
     for path, ret, out in res:
         ok, idx, mdl = T.equal(out_level, out, expected, mname)
         if not ok:
